@@ -11,6 +11,7 @@ import NutsProofs.Lemmas.C07
 import NutsProofs.Lemmas.C07LiveN
 import NutsProofs.Lemmas.C07Example
 import NutsProofs.Lemmas.C07LiveO
+import NutsProofs.Lemmas.C07IbltB
 open Nuts.Proto Nuts Nuts.Proto.L Nuts.Proto.Live Nuts.C07.Ex
 
 namespace Nuts.C07.Props
@@ -348,5 +349,162 @@ example : ∀ t, t ∈ (roundPairs exCfg idealEnv { key := 0 } { key := 1 } 4 2 
     (by decide) exA exB exPairInv 2 (by decide)).1
 /-- safety: a forged TransactionList without conversation, and an invalid transaction, change nothing -/
 example : (handle exCfg idealEnv exA { key := 1 } (.txList (7, 7) 1 1 [⟨some exX, some ⟨"p-x", 3, 20⟩⟩])).node.dag = exA.dag := by decide
+
+/-! ### Deepening round 2026-09-28: `tree.Iblt` inside the model (NutsModel/C07/Iblt.lean) -/
+
+section IbltProps
+open Nuts.Proto.Iblt
+
+/-- `bucketIndices` yields pairwise distinct buckets inside the table, for every hash function, key hash and table size ≥ 1:
+    Insert followed by Delete of a key cancels exactly and no index is out of range -/
+theorem iblt_bucket_indices_distinct_in_range (H : Hash) (P : Par) {n : Nat} (hn : 0 < n) (hash : Nat) :
+    (bucketIndices H P n hash).Nodup ∧ ∀ i ∈ bucketIndices H P n hash, i < n :=
+  bucketIndices_good H P hn hash
+
+/-- `Subtract` of the encodings of two duplicate-free key lists is the table of their two-sided difference: the common keys
+    cancel bucket by bucket (whatever the order the keys were inserted in) -/
+theorem iblt_subtract_represents_difference (H : Hash) (P : Par) {n : Nat} (hn : 0 < n) {loc peer : List Ref}
+    (hl : loc.Nodup) (hp : peer.Nodup) :
+    ∃ t, subtract (encode H P n loc) (encode H P n peer) = some t ∧
+      Rep H P n t (loc.filter (fun x => !peer.contains x)) (peer.filter (fun x => !loc.contains x)) :=
+  subtract_rep H P n hn hl hp
+
+/-- **The decode contract of the liveness theorems (`DC`), proved for the modelled `Subtract` + `Decode`** relative to ONE
+    property of the hash (`Faithful`: no ≥2 distinct keys of `U` look like a single key; no non-empty set of distinct keys of
+    `U` cancels to the zero bucket — false only on a 64-bit hash-sum collision): for duplicate-free key lists inside `U`
+    (a) a successful decode returns exactly the keys the peer has and we lack, (b) equal sets decode (to nothing),
+    (c) the result is never an error: no ErrDecodeLoop, and the peeling loop ends within |loc|+|peer|+1 sweeps. -/
+theorem iblt_decode_contract (H : Hash) (P : Par) {n : Nat} (U : Ref → Prop) (hn : 0 < n) (hk : 0 < P.k) (hm : 0 < P.maxChain)
+    (hF : Faithful H U) (loc peer : List Ref) (hl : loc.Nodup) (hp : peer.Nodup)
+    (hUl : ∀ x ∈ loc, U x) (hUp : ∀ x ∈ peer, U x) :
+    (∀ m, envDecode H P n loc (.ofSet peer) = .ok m → ∀ r, r ∈ m ↔ (r ∈ peer ∧ r ∉ loc)) ∧
+    ((∀ r, r ∈ loc ↔ r ∈ peer) → ∃ m, envDecode H P n loc (.ofSet peer) = .ok m) ∧
+    envDecode H P n loc (.ofSet peer) ≠ .err := by
+  obtain ⟨t, hsub, hrep⟩ := subtract_rep H P n hn hl hp
+  have hinv : Inv H P n U (loc.filter (fun x => !peer.contains x)) (peer.filter (fun x => !loc.contains x))
+      ⟨t, [], [], [], false⟩ (loc.filter (fun x => !peer.contains x)) (peer.filter (fun x => !loc.contains x)) := by
+    refine ⟨hrep, hl.filter _, hp.filter _, ?_, ?_, ?_, ?_, ?_, ?_⟩
+    · intro x hx hx'
+      have h1 := (List.mem_filter.mp hx).1
+      have h2 := (List.mem_filter.mp hx').2
+      simp [h1] at h2
+    · intro x hx; exact hUl x (List.mem_filter.mp hx).1
+    · intro x hx; exact hUp x (List.mem_filter.mp hx).1
+    · intro r; simp
+    · intro r; simp
+    · intro r hr; cases hr
+  have hfuel : (loc.filter (fun x => !peer.contains x)).length + (peer.filter (fun x => !loc.contains x)).length
+      < loc.length + peer.length + 1 := by
+    have h1 := List.length_filter_le (fun x => !peer.contains x) loc
+    have h2 := List.length_filter_le (fun x => !loc.contains x) peer
+    omega
+  have hspec := decodeLoop_spec H P n U hn hk hm hF (loc.length + peer.length + 1) t [] [] [] _ _ hinv hfuel
+  have hdef : envDecode H P n loc (.ofSet peer) =
+      (match decodeLoop H P (loc.length + peer.length + 1) t [] [] [] with
+       | .ok _ mis => .ok mis | .notPossible _ _ => .fail | .loop => .err | .fuel => .err) := by
+    simp only [envDecode, decodeAgainst, hsub, decode]
+    generalize decodeLoop H P (loc.length + peer.length + 1) t [] [] [] = d
+    cases d <;> rfl
+  rcases hspec with ⟨r, m, hd, _, hB⟩ | ⟨r, m, hd, hne⟩
+  · have hres : envDecode H P n loc (.ofSet peer) = .ok m := by rw [hdef, hd]
+    rw [hres]
+    refine ⟨?_, fun _ => ⟨m, rfl⟩, by simp⟩
+    intro m' hm' x
+    cases hm'
+    rw [← hB x]
+    simp [List.mem_filter]
+  · have hres : envDecode H P n loc (.ofSet peer) = .fail := by rw [hdef, hd]
+    rw [hres]
+    refine ⟨fun m' hm' => (by cases hm'), ?_, by simp⟩
+    intro hsame
+    exfalso
+    rcases hne with h | h
+    · apply h
+      rw [List.filter_eq_nil_iff]
+      intro x hx
+      simp [(hsame x).mp hx]
+    · apply h
+      rw [List.filter_eq_nil_iff]
+      intro x hx
+      simp [(hsame x).mpr hx]
+
+/-- garbage bytes and a table of another size are errors, as in `UnmarshalBinary` / `validate` -/
+theorem iblt_garbage_and_size_mismatch_err (H : Hash) (P : Par) (n fuel : Nat) (loc : List Ref) (peer : Table) (h : peer.length ≠ n) :
+    envDecode H P n loc .garbage = .err ∧ decodeAgainst H P n fuel loc peer = .err := by
+  refine ⟨rfl, ?_⟩
+  have : (encode H P n loc).length ≠ peer.length := by rw [encode_length]; exact fun e => h e.symm
+  simp [decodeAgainst, subtract, this]
+
+/-- non-vacuity of `Faithful`: the keys {1, 2} with hashKey x = x + 10 -/
+def exIbltHash : Hash := { hashKey := fun x => x + 10, chain0 := fun h => h * 7 + 3, chain := fun x => x * 5 + 1 }
+
+theorem exIbltHash_faithful : Faithful exIbltHash (fun x => x = 1 ∨ x = 2) := by
+  constructor
+  · intro S hnd hU hlen
+    match S, hnd, hU, hlen with
+    | [a, b], hnd, hU, _ =>
+      have ha := hU a (by simp)
+      have hb := hU b (by simp)
+      have hne : a ≠ b := by
+        intro h; subst h; simp at hnd
+      rcases ha with rfl | rfl <;> rcases hb with rfl | rfl <;> first | exact absurd rfl hne | decide
+    | a :: b :: c :: _, hnd, hU, _ =>
+      exfalso
+      have ha := hU a (by simp)
+      have hb := hU b (by simp)
+      have hc := hU c (by simp)
+      have h1 := (List.nodup_cons.mp hnd).1
+      have h2 := (List.nodup_cons.mp (List.nodup_cons.mp hnd).2).1
+      have hab : a ≠ b := fun h => h1 (by rw [h]; simp)
+      have hac : a ≠ c := fun h => h1 (by rw [h]; simp)
+      have hbc : b ≠ c := fun h => h2 (by rw [h]; simp)
+      rcases ha with rfl | rfl <;> rcases hb with rfl | rfl <;> rcases hc with rfl | rfl <;> simp_all
+  · intro S hnd hU hne
+    match S, hnd, hU, hne with
+    | [a], _, hU, _ =>
+      rcases hU a (by simp) with rfl | rfl <;> decide
+    | [a, b], hnd, hU, _ =>
+      have ha := hU a (by simp)
+      have hb := hU b (by simp)
+      rcases ha with rfl | rfl <;> rcases hb with rfl | rfl <;> first | decide | (simp at hnd)
+    | a :: b :: c :: _, hnd, hU, _ =>
+      exfalso
+      have ha := hU a (by simp)
+      have hb := hU b (by simp)
+      have hc := hU c (by simp)
+      have h1 := (List.nodup_cons.mp hnd).1
+      have h2 := (List.nodup_cons.mp (List.nodup_cons.mp hnd).2).1
+      have hab : a ≠ b := fun h => h1 (by rw [h]; simp)
+      have hac : a ≠ c := fun h => h1 (by rw [h]; simp)
+      have hbc : b ≠ c := fun h => h2 (by rw [h]; simp)
+      rcases ha with rfl | rfl <;> rcases hb with rfl | rfl <;> rcases hc with rfl | rfl <;> simp_all
+
+example : envDecode exIbltHash ⟨6, 64⟩ 16 [1] (.ofSet [2, 1]) = .ok [2] := by decide
+example : decode exIbltHash ⟨6, 64⟩ 5 ((subtract (encode exIbltHash ⟨6, 64⟩ 16 [1]) (encode exIbltHash ⟨6, 64⟩ 16 [2])).getD []) = .ok [1] [2] := by decide
+
+/-- regenerated constants of iblt.go the model is run with (`Driver.Proto.ibltPar`), and the side conditions of the contract -/
+theorem fact_iblt_constants :
+    Facts.C07.ibltK = 6 ∧ Facts.C07.ibltMaxChain = 64 ∧ Facts.C07.ibltHk = 1 ∧ Facts.C07.ibltHc = 0 ∧ Facts.C07.bucketBytes = 44 ∧
+    0 < Facts.C07.ibltK ∧ 0 < Facts.C07.ibltMaxChain ∧ Facts.C07.ibltK ≤ Facts.C07.ibltNumBuckets := by decide
+
+/-- regenerated: `bucketIndices` reduces every bucket number modulo the bucket count (chain value and linear probe), clamps k to
+    the bucket count, bounds the chain by `ibltMaxChain` and probes offsets 1 .. numBuckets-1 -/
+theorem fact_iblt_bucket_indices_shape :
+    Facts.C07.ibltIndexAssigns = ["numBuckets := uint32(i.numBuckets())", "k := int(i.k)", "k = int(numBuckets)", "next := murmur3.SeedSum32(i.hk, hashKeyBytes)", "bucketID = next % numBuckets", "next = murmur3.SeedSum32(i.hk, nextBytes)", "probe := (bucketID + off) % numBuckets"] ∧
+    Facts.C07.ibltIndexLoops = ["step := 0; len(indices) < k && step < ibltMaxChain; step++", "off := uint32(1); len(indices) < k && off < numBuckets; off++"] ∧
+    Facts.C07.ibltIndexIfs = ["uint32(k) > numBuckets", "!bucketUsed[bucketID]", "!bucketUsed[probe]"] := by decide
+
+/-- regenerated: the control flow of `Decode` (endless outer loop, sweep over the buckets, the purity test, the `pures` guard with
+    ErrDecodeLoop, Delete for +1 / Insert otherwise, ErrDecodeNotPossible when nothing was peeled and the table is not empty) -/
+theorem fact_iblt_decode_shape :
+    Facts.C07.ibltDecodeShape = ["for{}", "updated := false", "range i.buckets", "(i.buckets[idx].count == 1 || i.buckets[idx].count == -1) && i.hashKey(i.buckets[idx].keySum) == i.buckets[idx].hashSum", "txRef := i.buckets[idx].keySum", "pures[txRef]", "err = ErrDecodeLoop", "i.buckets[idx].count == 1", "updated = true", "!updated", "!i.Empty()", "err = ErrDecodeNotPossible"] ∧
+    Facts.C07.ibltDecodeCalls = ["hashKey", "Delete", "Insert", "Empty"] := by decide
+
+set_option maxRecDepth 20000 in
+/-- regenerated: the bucket operations and the Iblt methods built on them -/
+theorem fact_iblt_bucket_ops :
+    Facts.C07.ibltOps = ["bucket.insert: b.count++; b.update(key, hash);", "bucket.delete: b.count--; b.update(key, hash);", "bucket.subtract: b.count -= o.count; b.update(o.keySum, o.hashSum);", "bucket.update: b.keySum = b.keySum.Xor(key); b.hashSum ^= hash;", "bucket.isEmpty: return b.equals(new(bucket));", "Iblt.Insert: keyHash := i.hashKey(ref); for _, h := range i.bucketIndices(keyHash) { i.buckets[h].insert(ref, keyHash) };", "Iblt.Delete: keyHash := i.hashKey(key); for _, h := range i.bucketIndices(keyHash) { i.buckets[h].delete(key, keyHash) };", "Iblt.Subtract: o, err := i.validate(other); if err != nil { return err }; for idx := range i.buckets { i.buckets[idx].subtract(&o.buckets[idx]) }; return nil;", "Iblt.Empty: for idx := range i.buckets { if !i.buckets[idx].isEmpty() { return false } }; return true;", "Iblt.hashKey: return murmur3.SeedSum64(i.hc, key.Slice());"] := by decide
+
+end IbltProps
 
 end Nuts.C07.Props
